@@ -773,6 +773,174 @@ def _g17(ctx):
     ctx.ob("G17", rel, "NXOSCA.compute_divisor", "returned divider lies in the declared range and meets the request within its margin", bad["wrong"] is None, bad["wrong"] or "", fn)
 
 
+def _frange(spec):
+    """the values clkdiv_range / range would hand out for a declared (start, stop[, step]) tuple"""
+    start, stop = spec[0], spec[1]
+    step = spec[2] if len(spec) > 2 else 1
+    out, x = [], start
+    while x < stop:
+        out.append(x)
+        x += step
+    return out
+
+
+def _g18(ctx):
+    """The search routines decided BY VALUE on model primitives: compute_config of XilinxClocking (all Xilinx PLL / MMCM classes inherit
+    it) and iCE40PLL interpreted (lxs/pyconst.py) with small model ranges -- the routines read every range from `self`,
+    so a model primitive exercises them exactly like a real one, at a cost that lets the checker enumerate the whole space itself:
+    a returned configuration, recomputed from its own multipliers and dividers, lies inside the ranges and the VCO window and meets
+    every request within its margin; a request is refused exactly when the enumeration finds no setting."""
+    from .. import pyconst
+    from ..pyconst import NS, Native
+    common = ctx.mod(D + "common.py")
+    cfuncs = {f.name: f for f in common.tree.body if isinstance(f, ast.FunctionDef)}
+    import math as _math
+    consts = {"compute_config_log": Native(lambda *a, **k: None), "float": Native(float)}
+    EPS = 1e-9
+
+    def close(a, b):
+        return isinstance(a, (int, float)) and abs(a - b) <= EPS * max(abs(b), 1.0)
+
+    def within(x, lo, hi):
+        return lo * (1 - EPS) <= x <= hi * (1 + EPS)
+
+    # ---- model primitives: (file, class, attributes, request grid, enumerate(me, reqs) -> settings, verify(me, reqs, cfg) -> text | None)
+    def xil_solutions(me, reqs):
+        lo, hi = me["vco_freq_range"][0] * (1 + me["vco_margin"]), me["vco_freq_range"][1] * (1 - me["vco_margin"])
+        for dv in range(*me["divclk_divide_range"]):
+            for mu in range(*me["clkfbout_mult_frange"]):
+                vco = me["clkin_freq"] * mu / dv
+                if not (lo <= vco <= hi):
+                    continue
+                if all(any(abs(vco / d - f) <= f * m for d in _frange(me["clkout_divide_range"]) + (_frange(me[f"clkout{n}_divide_range"]) if me.get(f"clkout{n}_divide_range") else []))
+                       for n, (f, p, m) in enumerate(reqs)):
+                    yield (dv, mu)
+
+    def xil_verify(me, reqs, cfg):
+        dv, mu = cfg.get("divclk_divide"), cfg.get("clkfbout_mult")
+        if dv not in range(*me["divclk_divide_range"]) or mu not in range(*me["clkfbout_mult_frange"]):
+            return f"divclk_divide = {dv!r}, clkfbout_mult = {mu!r} outside the declared ranges {me['divclk_divide_range']} / {me['clkfbout_mult_frange']}"
+        vco = me["clkin_freq"] * mu / dv
+        if not within(vco, me["vco_freq_range"][0] * (1 + me["vco_margin"]), me["vco_freq_range"][1] * (1 - me["vco_margin"])):
+            return f"VCO {vco!r} Hz recomputed from mult {mu} / div {dv} is outside the window {me['vco_freq_range']} (margin {me['vco_margin']})"
+        if not close(cfg.get("vco"), vco):
+            return f"config['vco'] = {cfg.get('vco')!r}, recomputed {vco!r}"
+        for n, (f, p, m) in enumerate(reqs):
+            d = cfg.get(f"clkout{n}_divide")
+            legal = _frange(me["clkout_divide_range"]) + (_frange(me[f"clkout{n}_divide_range"]) if me.get(f"clkout{n}_divide_range") else [])
+            if not any(close(d, x) for x in legal):
+                return f"clkout{n}_divide = {d!r} is not a divider of the declared range(s)"
+            if abs(vco / d - f) > f * m * (1 + 1e-9) + 1e-6:
+                return f"output {n}: {vco!r} / {d} = {vco / d!r} Hz misses the requested {f!r} Hz by more than the margin {m}"
+            if not close(cfg.get(f"clkout{n}_freq"), vco / d) or cfg.get(f"clkout{n}_phase") != p:
+                return f"output {n}: recorded frequency / phase {cfg.get(f'clkout{n}_freq')!r} / {cfg.get(f'clkout{n}_phase')!r}, recomputed {vco / d!r} / requested phase {p}"
+        return None
+
+    def ice_solutions(me, reqs):
+        for dr in range(*me["divr_range"]):
+            for df in range(*me["divf_range"]):
+                vco = me["clkin_freq"] / (dr + 1) * (df + 1)
+                if me["vco_freq_range"][0] <= vco <= me["vco_freq_range"][1] and \
+                        all(any(abs(vco / 2 ** dq - f) <= f * m for dq in range(*me["divq_range"])) for (f, p, m) in reqs):
+                    yield (dr, df)
+
+    def ice_verify(me, reqs, cfg):
+        dr, df, dq = cfg.get("divr"), cfg.get("divf"), cfg.get("divq")
+        if dr not in range(*me["divr_range"]) or df not in range(*me["divf_range"]) or dq not in range(*me["divq_range"]):
+            return f"divr / divf / divq = {dr!r} / {df!r} / {dq!r} outside the declared ranges"
+        vco = me["clkin_freq"] / (dr + 1) * (df + 1)
+        if not within(vco, *me["vco_freq_range"]):
+            return f"VCO {vco!r} Hz recomputed from divr {dr}, divf {df} is outside the window {me['vco_freq_range']}"
+        f, p, m = reqs[0]
+        if abs(vco / 2 ** dq - f) > f * m * (1 + 1e-9) + 1e-6:
+            return f"{vco!r} / 2**{dq} = {vco / 2 ** dq!r} Hz misses the requested {f!r} Hz by more than the margin {m}"
+        if not close(cfg.get("vco"), vco) or not close(cfg.get("clkout_freq"), vco / 2 ** dq):
+            return f"recorded vco / clkout_freq {cfg.get('vco')!r} / {cfg.get('clkout_freq')!r}, recomputed {vco!r} / {vco / 2 ** dq!r}"
+        return None
+
+    def intel_ns(me):
+        lo = max(_math.ceil(me["clkin_freq"] / me["clkin_pfd_freq_range"][1]), me["n_div_range"][0])
+        hi = min(_math.floor(me["clkin_freq"] / me["clkin_pfd_freq_range"][0]) + 1, me["n_div_range"][1])
+        return range(lo, hi)
+
+    def intel_solutions(me, reqs):
+        lo, hi = me["vco_freq_range"][0] * (1 + me["vco_margin"]), me["vco_freq_range"][1] * (1 - me["vco_margin"])
+        for n_ in intel_ns(me):
+            for m_ in range(*me["m_div_range"]):
+                vco = me["clkin_freq"] * m_ / n_
+                if lo <= vco <= hi and all(any(abs(vco / c - f) <= f * mg for c in _frange(me["c_div_range"])) for (f, p, mg) in reqs):
+                    yield (n_, m_)
+
+    def intel_verify(me, reqs, cfg):
+        m_ = cfg.get("m")
+        if m_ not in range(*me["m_div_range"]):
+            return f"m = {m_!r} outside the declared range {me['m_div_range']}"
+        # n is folded into the output dividers (clk<i>_divide = c * n): recover it from the recorded VCO
+        vco = cfg.get("vco")
+        ns = [n_ for n_ in intel_ns(me) if close(me["clkin_freq"] * m_ / n_, vco)] if isinstance(vco, (int, float)) else []
+        if not ns:
+            return f"config['vco'] = {vco!r} is not clkin * m / n for any legal input divider n"
+        if not within(vco, me["vco_freq_range"][0] * (1 + me["vco_margin"]), me["vco_freq_range"][1] * (1 - me["vco_margin"])):
+            return f"VCO {vco!r} Hz outside the window {me['vco_freq_range']} (margin {me['vco_margin']})"
+        for i, (f, p, mg) in enumerate(reqs):
+            dv = cfg.get(f"clk{i}_divide")
+            cs = [c for c in _frange(me["c_div_range"]) for n_ in ns if close(dv, c * n_)]
+            if not cs:
+                return f"clk{i}_divide = {dv!r} is not c * n for a legal output divider c"
+            if abs(vco / cs[0] - f) > f * mg * (1 + 1e-9) + 1e-6:
+                return f"output {i}: {vco!r} / {cs[0]} = {vco / cs[0]!r} Hz misses the requested {f!r} Hz by more than the margin {mg}"
+            if not close(cfg.get(f"clk{i}_freq"), vco / cs[0]) or cfg.get(f"clk{i}_phase") != p:
+                return f"output {i}: recorded frequency / phase {cfg.get(f'clk{i}_freq')!r} / {cfg.get(f'clk{i}_phase')!r}, recomputed {vco / cs[0]!r} / requested phase {p}"
+        return None
+
+    single = [[(f, 0, m)] for f in (200e6, 100e6, 66e6, 37.5e6, 333e6, 123.4e6, 800e6, 50e6) for m in (0.0, 1e-2, 5e-2)]
+    multi = [[(200e6, 0, 1e-2), (50e6, 90, 1e-2)], [(100e6, 0, 0.0), (200e6, 180, 0.0), (25e6, 0, 5e-2)], [(150e6, 0, 1e-2), (133e6, 0, 1e-2)],
+             [(400e6, 0, 0.0), (100e6, 45, 0.0)], [(66e6, 0, 5e-2), (33e6, 0, 5e-2)]]
+    models = [
+        ("xilinx_common.py", "XilinxClocking", xil_solutions, xil_verify, single + multi,
+         [dict(divclk_divide_range=(1, 4), clkfbout_mult_frange=(2, 9), clkout_divide_range=(1, 9), vco_freq_range=(400e6, 800e6), vco_margin=vm, clkin_freq=ci, **extra)
+          for ci in (100e6, 50e6) for vm in (0, 0.1) for extra in ({}, {"clkout0_divide_range": (2, 4, 0.125)})]),
+        ("lattice_ice40.py", "iCE40PLL", ice_solutions, ice_verify, single,
+         [dict(divr_range=(0, 3), divf_range=(0, 12), divq_range=(1, 5), vco_freq_range=(400e6, 800e6), clkin_freq=ci) for ci in (100e6, 48e6, 12e6)]),
+    ]
+    for fname, cname, solutions, verify, grid, attrsets in models:
+        m = ctx.mod(D + fname)
+        fn = m.method(cname, "compute_config")
+        ctx.analysed["functions"].add(f"{D}{fname}::{cname}.compute_config")
+        funcs = dict(cfuncs)
+        funcs.update({f.name: f for f in m.tree.body if isinstance(f, ast.FunctionDef)})
+        bad = {"cfg": None, "refused": None, "granted": None}
+        n_ok = n_ref = 0
+        for attrs in attrsets:
+            for reqs in grid:
+                if cname == "iCE40PLL" and len(reqs) != 1:
+                    continue
+                me = NS(clkouts={i: (f"clk{i}", f, p, mg) for i, (f, p, mg) in enumerate(reqs)}, nclkouts=len(reqs), logger=NS(), **attrs)
+                what = f"model {cname} { {k: v for k, v in attrs.items()} }, requests {[(f, p, mg) for f, p, mg in reqs]}"
+                try:
+                    r = pyconst.call(fn, {"self": me}, consts=consts, funcs=funcs)
+                except pyconst.Unknowable as ex:
+                    ctx.need(False, f"{cname}.compute_config cannot be interpreted on the model primitive: {ex}")
+                sat = next(iter(solutions(me, reqs)), None)
+                if r[0] == "raise":
+                    n_ref += 1
+                    if sat is not None:
+                        bad["refused"] = bad["refused"] or f"{what}: refused, although the setting {sat} lies inside every declared range and meets every request"
+                    continue
+                n_ok += 1
+                cfg = r[1] if isinstance(r[1], dict) else {}
+                why = verify(me, reqs, cfg)
+                if why is not None:
+                    bad["cfg"] = bad["cfg"] or f"{what}: returned {dict(cfg)}: {why}"
+                if sat is None and why is None:
+                    bad["granted"] = bad["granted"] or f"{what}: a configuration is returned although the enumeration finds none"
+        ctx.analysed["paths"] += n_ok + n_ref
+        ctx.ob("G18", D + fname, f"{cname}.compute_config", "interpreted requests:present", n_ok >= 10 and n_ref >= 10, f"{n_ok} granted / {n_ref} refused", fn)
+        ctx.ob("G18", D + fname, f"{cname}.compute_config", "returned configuration, recomputed, is inside the declared ranges / VCO window and meets every request", bad["cfg"] is None and bad["granted"] is None,
+               bad["cfg"] or bad["granted"] or "", fn)
+        ctx.ob("G18", D + fname, f"{cname}.compute_config", "refused only when no setting inside the declared ranges meets the requests", bad["refused"] is None, bad["refused"] or "", fn)
+
+
 def _g15(ctx):
     """GateMatePLL.do_finalize interpreted (lxs/pyconst.py, primitives as opaque objects) on model requests: the CC_PLL primitive is
     configured by two decimal strings and two doubler flags only, so those must reproduce the registered input frequency and every
@@ -848,6 +1016,11 @@ def run(ctx):
     ctx.rule("G17", "Lattice NX oscillator: compute_divisor returns a divider of the declared range that meets the request within its "
                     "margin, and refuses exactly when none does (divider 0 included) -- by interpretation against a brute-force search", min_sites=3)
     _g17(ctx)
+    ctx.rule("G18", "search routines by value: compute_config of XilinxClocking (inherited by every Xilinx PLL / MMCM class) and iCE40PLL "
+                    "interpreted on model primitives with small ranges and compared with the checker's own enumeration of "
+                    "the whole space: returned settings recomputed from their multipliers / dividers meet every request within its margin "
+                    "inside the ranges and the VCO window; refusal only when the enumeration is empty", min_sites=6)
+    _g18(ctx)
     ctx.rule("G14", "declared windows are closed intervals: a computed frequency equal to a declared minimum / maximum passes every window "
                     "test of the search routines (non-strict acceptance, strict rejection)", min_sites=14)
     _g14(ctx)
